@@ -226,7 +226,15 @@ func RunHistory(id int, seed int64) (*History, []Problem) {
 						logResp(n, rec{})
 					} else {
 						n := logInv(rec{"kind": "rpan", "pid": pid})
-						ok, _ := b.RemovePipelineAndNodes(context.Background(), "t", eventlogger.PipelineID(pid))
+						// every other removal comes from a caller that has given up already (a done context): the call
+						// either takes effect or not, atomically, and reports which
+						rctx := context.Background()
+						if r.Intn(2) == 0 {
+							c, cancel := context.WithCancel(rctx)
+							cancel()
+							rctx = c
+						}
+						ok, _ := b.RemovePipelineAndNodes(rctx, "t", eventlogger.PipelineID(pid))
 						logResp(n, rec{"removed": map[bool]string{true: "t", false: "f"}[ok]})
 					}
 				case x < 14:
@@ -250,7 +258,12 @@ func RunHistory(id int, seed int64) (*History, []Problem) {
 				default:
 					id := eventlogger.NodeID(fmt.Sprintf("tmp%d_%d", g, i))
 					b.RegisterNode(id, &leaf{eventlogger.NodeTypeFilter})
-					b.RemoveNode(context.Background(), id)
+					c, cancel := context.WithCancel(context.Background())
+					if i%2 == 0 {
+						cancel()
+					}
+					b.RemoveNode(c, id)
+					cancel()
 				}
 			}
 		}(g)
